@@ -52,6 +52,7 @@ func ecGenNodeSeq(c *runCtx, run func([]string)) {
 }
 
 func ecExec(c *runCtx, ops []string) {
+	c.independent = true
 	for _, line := range ops {
 		o := parseOp(line)
 		switch o.name {
